@@ -2355,7 +2355,7 @@ d2sc_clip_array	(const double *src, signed char *dest, int count, int normalize)
 			continue ;
 			} ;
 
-		dest [i] = psf_lrintf (scaled_value) ;
+		dest [i] = psf_lrint (scaled_value) ;
 		} ;
 } /* d2sc_clip_array */
 
